@@ -189,10 +189,12 @@ def run_kernel(k, fns, wrapping, fields, budget):
         jobs = []
         for o in outcomes:
             out["paths"] += 1
+            # a callee that unwinds is a panic of the kernel
+            okind = "panic" if o.kind == "unwind" else o.kind
             if getattr(k, "needs_state", False):
-                post = k.post(o.kind, o.state.events, o.value, d, state=o.state)
+                post = k.post(okind, o.state.events, o.value, d, state=o.state)
             else:
-                post = k.post(o.kind, o.state.events, o.value, d)
+                post = k.post(okind, o.state.events, o.value, d)
             if post == "true":
                 continue
             base = ctx.assume + o.state.pc + [f"(not {post})"]
